@@ -46,7 +46,7 @@ def check_config(ctx: Ctx) -> None:
     opt_fields = dataclass_fields(opt_cls)
     ctx.note("config_fields", cfg_fields)
     ctx.note("options_fields", len(opt_fields))
-    ctx.require("R-CONFIG", "FlowmarkConfig fields", len(cfg_fields), 12)
+    ctx.require("R-CONFIG", "FlowmarkConfig fields", len(cfg_fields), 6)
     pa = find_parse_args(ctx)
     pflow = prog.flow(pa)
     pms = parsers_in(repo, pa)
@@ -466,7 +466,7 @@ def _check_main_wiring(ctx: Ctx, main: FuncInfo, merge: FuncInfo) -> None:
     ctx.ob("R-CONFIG-K8", f"{main.qual} -> {merge.qual} :: config", corg == frozenset({("call", "flowmark.config:load_config")}),
            "the merged config must be the loaded config file", where(main, mc))
     consumers = [n for n, c in flow.all_calls() if call_name(prog, main, c) in ("flowmark.cli:_resolve_files", "flowmark.reformat_api:reformat_files")]
-    ctx.require("R-CONFIG-K8", "consumers of the merged options in main", len(consumers), 2)
+    ctx.require("R-CONFIG-K8", "consumers of the merged options in main", len(consumers), 1)
     for cn in consumers:
         before = flow.cfg.path_avoiding(mn, cn, set()) is not None and flow.cfg.path_avoiding(cn, mn, set()) is None
         ctx.ob("R-CONFIG-K8", f"{main.qual} :: merge precedes {norm(cn.ast)[:40]}", before,
